@@ -91,17 +91,17 @@ fn tall(cx: &Ctx, check_span: bool, check_groups: bool) -> Tally {
         alphabet: vec![],
         max_len: 0,
         text_list: Some(refsweep::tall_texts(if cx.quick() { 32 } else { 64 })),
-        offset0_only: true,
+        offset0_only: true, letter_names: false,
     };
     refsweep::run(cx, &space, &cfg)
 }
 
 pub fn run_c01(cx: &Ctx) -> i32 {
     let (space, alphabet, max_len) = c01_space(cx);
-    let cfg = RefCfg { check_span: true, check_groups: false, check_is_match: true, need_scoped: true, filter: None, shadow: false, alphabet: alphabet.clone(), max_len, text_list: None, offset0_only: false };
+    let cfg = RefCfg { check_span: true, check_groups: false, check_is_match: true, need_scoped: true, filter: None, shadow: false, alphabet: alphabet.clone(), max_len, text_list: None, offset0_only: false, letter_names: false };
     let mut t = refsweep::run(cx, &space, &cfg);
     let (lspace, lalpha, llen) = long_text_space(cx);
-    let lcfg = RefCfg { alphabet: lalpha, max_len: llen, ..RefCfg { check_span: true, check_groups: false, check_is_match: true, need_scoped: true, filter: None, shadow: false, alphabet: vec![], max_len: 0 , text_list: None, offset0_only: false} };
+    let lcfg = RefCfg { alphabet: lalpha, max_len: llen, ..RefCfg { check_span: true, check_groups: false, check_is_match: true, need_scoped: true, filter: None, shadow: false, alphabet: vec![], max_len: 0 , text_list: None, offset0_only: false, letter_names: false} };
     let t2 = refsweep::run(cx, &lspace, &lcfg);
     t.count("long_text_sweep_programs", t2.programs);
     t.count("long_text_sweep_evaluations", t2.evaluations);
@@ -140,10 +140,10 @@ pub fn run_c02(cx: &Ctx) -> i32 {
     fn has_group(_n: &Node, f: &Facts) -> bool {
         f.n_groups >= 1
     }
-    let cfg = RefCfg { check_span: false, check_groups: true, check_is_match: false, need_scoped: true, filter: Some(has_group), shadow: false, alphabet: alphabet.clone(), max_len, text_list: None, offset0_only: false };
+    let cfg = RefCfg { check_span: false, check_groups: true, check_is_match: false, need_scoped: true, filter: Some(has_group), shadow: false, alphabet: alphabet.clone(), max_len, text_list: None, offset0_only: false, letter_names: false };
     let mut t = refsweep::run(cx, &space, &cfg);
     let (lspace, lalpha, llen) = long_text_space(cx);
-    let lcfg = RefCfg { check_span: false, check_groups: true, check_is_match: false, need_scoped: true, filter: Some(has_group), shadow: false, alphabet: lalpha, max_len: llen , text_list: None, offset0_only: false};
+    let lcfg = RefCfg { check_span: false, check_groups: true, check_is_match: false, need_scoped: true, filter: Some(has_group), shadow: false, alphabet: lalpha, max_len: llen , text_list: None, offset0_only: false, letter_names: false};
     let t2 = refsweep::run(cx, &lspace, &lcfg);
     t.count("long_text_sweep_programs", t2.programs);
     t.count("long_text_sweep_evaluations", t2.evaluations);
@@ -192,14 +192,21 @@ pub fn run_c15(cx: &Ctx) -> i32 {
     let space = Space::new().exh("cond", space::cond_grammar(atoms), k).ctxfill(3, 1, &|c| c.name.contains("(?("));
     let alphabet = if cx.quick() { vec!['a', 'b', '\n'] } else { vec!['a', 'b', 'c', '\n'] };
     let max_len = 3;
-    let cfg = RefCfg { check_span: true, check_groups: true, check_is_match: false, need_scoped: true, filter: Some(has_cond), shadow: false, alphabet: alphabet.clone(), max_len, text_list: None, offset0_only: false };
-    let t = refsweep::run(cx, &space, &cfg);
+    let cfg = RefCfg { check_span: true, check_groups: true, check_is_match: false, need_scoped: true, filter: Some(has_cond), shadow: false, alphabet: alphabet.clone(), max_len, text_list: None, offset0_only: false, letter_names: false };
+    let mut t = refsweep::run(cx, &space, &cfg);
+    // the same space with the groups named a, b, ...: an expression condition such as (?(a)..) must
+    // stay an expression even when a group of that name exists
+    let cfg2 = RefCfg { letter_names: true, ..RefCfg { check_span: true, check_groups: true, check_is_match: false, need_scoped: true, filter: Some(has_cond), shadow: false, alphabet: alphabet.clone(), max_len, text_list: None, offset0_only: false, letter_names: false } };
+    let t2 = refsweep::run(cx, &space, &cfg2);
+    t.count("letter_named_sweep_programs", t2.programs);
+    t.count("letter_named_sweep_evaluations", t2.evaluations);
+    t.merge(t2);
     finish(
         cx,
         t,
         Finish {
             rule: format!(
-                "every pattern containing a conditional of {} x every text over {:?} up to length {} x every offset; span and all groups versus the reference matcher (group condition: yes iff the group is set; expression condition: first result of the condition, then yes from its end without ever falling back to no, else no from the original position)",
+                "every pattern containing a conditional of {} x every text over {:?} up to length {} x every offset; span and all groups versus the reference matcher (group condition: yes iff the group is set; expression condition: first result of the condition, then yes from its end without ever falling back to no, else no from the original position); the whole sweep is run twice: groups numbered, and groups named a, b, ... (?<a>..) with \\k<a> / (?(<a>)..) references, so that group names collide with the literals used in expression conditions",
                 space.describe(), alphabet, max_len
             ),
             exhaustive: true,
